@@ -52,7 +52,7 @@ def worker_init():
     global SCRATCH
     from sim.fakes import quiet_logging
     quiet_logging()
-    SCRATCH = '/tmp/vsim-c17-%08d' % (os.getpid() % 10 ** 8)
+    SCRATCH = os.path.join(os.environ.get('VERIF_SCRATCH', '/tmp'), 'vsim-c17-%08d' % (os.getpid() % 10 ** 8))
     atexit.register(_cleanup)
 
 
